@@ -225,6 +225,56 @@ def forwarded_object_case(ctx, seed):
         check_map(ctx, to_map(ctx, pb.playback_outputs, w, 'playback_outputs'), exp_rep, op_rep, w, 'playback_outputs')
 
 
+def nested_recorders_case(ctx, seed):
+    """Two services, each with its own recorder, in one process: an operation of the pricing service (recorder Y) is called from inside
+    the real implementation of an input that the orders service (recorder X) intercepts. Y's recording must hold exactly what Y's
+    operation sent, whatever X is doing on that thread."""
+    from playback.tape_recorder import TapeRecorder
+    rng = random.Random(seed)
+    inner = gen_program(rng, threads=False, nested=False, explicit_raise=0, raise_rate=0.0, max_in_decls=2, max_out_decls=2, try_steps=False,
+                        record_data=False, extractor=False, class_level=False)
+    if not inner['outputs'] and not inner['inputs']:
+        return
+    outer = {'seed_world': 5, 'class_level': False, 'extractor': None, 'params': None, 'opts': {'raise_rate': 0.0}, 'uid': 970000 + seed % 1000,
+             'inputs': [{'name': 'in0', 'io': 'in', 'kind': 'instance', 'nparams': 1, 'resolver': None, 'capture': 'all', 'handler': None,
+                         'fallback': None, 'run_original': False, 'substitute': ('none',), 'nested': [], 'alias': 'orders.price'}],
+             'outputs': [{'name': 'out0', 'io': 'out', 'kind': 'instance', 'nparams': 1, 'handler': None, 'fail_on_no_result': True, 'default': None,
+                          'nested': [], 'alias': 'orders.confirm'}],
+             'body': [{'op': 'in', 'decl': 'in0', 'args': [{'lit': 1}], 'kwargs': {}, 'var': 'a'},
+                      {'op': 'out', 'decl': 'out0', 'args': [{'var': 'a'}], 'kwargs': {}, 'var': 'b'}], 'gen_seed': seed}
+    w = {'nested_recorders': True, 'case_seed': seed, 'inner_program': describe(inner)}
+    with open_box('memory') as box_x, open_box(('memory', 'file')[seed % 2]) as box_y:
+        rec_x = TapeRecorder(SpyCassette(box_x.cassette))
+        rec_x.enable_recording()
+        spy_y = SpyCassette(box_y.cassette)
+        rec_y = TapeRecorder(spy_y)
+        rec_y.enable_recording()
+        inner_built = Built(inner, rec_y, World(inner['seed_world'], raise_rate=0.0))
+        outer['inputs'][0]['nested'] = [{'op': 'py', 'fn': lambda built: inner_built.run('inner')}]
+        Built(outer, rec_x, World(5, raise_rate=0.0)).run('outer')
+        saves = [e for e in spy_y.log if e[0] == 'save']
+        if len(saves) != 1:
+            ctx.violation('the inner service\'s operation (own recorder) was saved %d times while called from inside an interception of another recorder' % len(saves), w)
+            return
+        ro = spy_y.recordings[saves[0][1]]
+        if not recording_in_domain(ro.recording_data, ro.recording_metadata):
+            ctx.count('recordings_out_of_serializer_domain')
+            return
+        rec2 = TapeRecorder(box_y.reader())
+        rep = Built(inner, rec2, World(1, poison=True), cls_name=inner_built.cls.__name__)
+        try:
+            pb = rec2.play(saves[0][2], playback_function_for(rep))
+        except BaseException as ex:  # noqa
+            ctx.violation('the inner service\'s recording cannot be replayed on unchanged code: %s' % type(ex).__name__, dict(w, error=repr(ex)[:200]))
+            return
+        ctx.case(w)
+        ctx.count('nested_recorder_cases')
+        exp_live, op_live = expected_outputs(inner_built, inner_built.journal)
+        check_map(ctx, to_map(ctx, pb.recorded_outputs, w, 'recorded_outputs'), exp_live, op_live, w, 'recorded_outputs')
+        if rep.journal.bodies():
+            ctx.violation('a wrapped body of the inner service ran during the replay of its recording', w)
+
+
 def run(ctx):
     n = ctx.budget(300, 15000)
     base = ctx.seed * 1000003 + ctx.shard * 1000000
@@ -232,6 +282,8 @@ def run(ctx):
         run_case(ctx, base + i)
     for i in range(ctx.budget(24, 600)):
         forwarded_object_case(ctx, base + i)
+    for i in range(ctx.budget(20, 600)):
+        nested_recorders_case(ctx, base + i)
     rng = random.Random(base)
     p = gen_program(rng, max_out_decls=3, max_in_decls=2)
     p2, edits = edit_program(p, rng)
@@ -243,4 +295,6 @@ def run(ctx):
 def replay(ctx, w):
     if w.get('forwarded_object'):
         return forwarded_object_case(ctx, w['case_seed'])
+    if w.get('nested_recorders'):
+        return nested_recorders_case(ctx, w['case_seed'])
     run_case(ctx, w['case_seed'])
